@@ -88,3 +88,31 @@ Proof. reflexivity. Qed.
 Lemma unflatten_flatten2 (a b c d : K) : unflatten 2 2 (flatten [[a; b]; [c; d]]) = [[a; b]; [c; d]].
 Proof. reflexivity. Qed.
 End Header.
+
+(* ITK's index map inverts ITK's physical-point map (orthonormal direction, non-zero spacing) *)
+Section ItkInverse.
+Variable K : fld.
+Hypothesis Kf : is_field K.
+Hypothesis Kc : char0 K.
+Add Field KFI2 : Kf.
+
+Lemma itk_index_inverts_phys (D : nat) (s o : nat -> K) (d : nat -> nat -> K) (X : list K) :
+  D = 2%nat \/ D = 3%nat -> (forall i, (i < D)%nat -> s i <> 0) -> orthonormal D (tab D D d) -> length X = D ->
+  itk_index D (vtab D o) (vtab D s) (tab D D d) (itk_phys (vtab D o) (vtab D s) (tab D D d) X) = X.
+Proof.
+  intros HD Hs [Ho _] HX. unfold itk_index, itk_phys.
+  assert (K1 : (1 : K) <> 0) by (destruct Kf as [_ H1 _ _]; exact H1).
+  destruct HD as [-> | ->].
+  - destruct X as [|x0 [|x1 [|? ?]]]; try discriminate HX.
+    pose proof (Hs 0%nat ltac:(lia)); pose proof (Hs 1%nat ltac:(lia)).
+    fcbv_in Ho. injection Ho as R00 R01 R10 R11.
+    apply (rule2 K Kf) in R00, R01, R11.
+    fcbv. list_eq; field [R00 R01 R11]; repeat split; auto.
+  - destruct X as [|x0 [|x1 [|x2 [|? ?]]]]; try discriminate HX.
+    pose proof (Hs 0%nat ltac:(lia)) as H0; pose proof (Hs 1%nat ltac:(lia)) as H1; pose proof (Hs 2%nat ltac:(lia)) as H2.
+    assert (E : vsub (vadd (vtab 3 o) (mv (tab 3 3 d) (vmul (vtab 3 s) [x0; x1; x2]))) (vtab 3 o)
+                = mv (tab 3 3 d) (vmul (vtab 3 s) (vtab 3 (fun i => nth i [x0; x1; x2] 0))))
+      by (fcbv; list_eq; ring).
+    rewrite E. exact (RtR_cancel3 K Kf d s (fun i => nth i [x0; x1; x2] 0) Ho H0 H1 H2).
+Qed.
+End ItkInverse.
